@@ -400,7 +400,7 @@ class Checker:
             obs_n = [(a[1], 'PF' if a[0] else 'PS') for t, a, ctx, phase in self.pl if t == 'n']
             self.stats['C06.steps'] += 1
             if has_status: self.stats['C06.steps-with-status'] += 1
-            judged = not (kind != 'UPDATE' and self.bottomup and has_status)
+            judged = True
             if not judged: self.stats['C06.unadjudicated(bottom-up react)'] += 1; self.plan_unjudged = True; pt.uncertain = True
             if judged:
                 exp_t = [(t[1], pt.regions[r]) for r, t in executed]
